@@ -53,6 +53,8 @@ type Unit struct {
 	inferred    map[string][]string // loop → inferred invariant names (reported)
 	houdiniDead map[string]map[string]bool
 	vacChecked  map[string]bool
+	beforeHit   map[string]bool    // callees of "before <callee>: assert" clauses whose call was met
+	droppedInv  map[*Clause]string // unlabelled helper invariants that can no longer be evaluated on the code: not assumed, not checked
 }
 
 type loopInfo struct {
@@ -397,7 +399,10 @@ func (st *State) enterBlock() bool {
 			for _, c := range ls.Invariants {
 				env := st.newEnv(fr, nil)
 				env.lentry = le.entry
-				t := env.evalBool(c.E)
+				t, ok := st.invBool(env, c)
+				if !ok {
+					continue
+				}
 				st.assumeAll(env.defs)
 				st.u.addObl(st, "loop-step", pfx+"/"+clauseName(c), fr.block.Instrs[0].Pos(), t, false)
 			}
@@ -437,7 +442,10 @@ func (st *State) enterBlock() bool {
 	if ls != nil {
 		for _, c := range ls.Invariants {
 			env := st.newEnv(fr, nil)
-			t := env.evalBool(c.E)
+			t, ok := st.invBool(env, c)
+			if !ok {
+				continue
+			}
 			st.assumeAll(env.defs)
 			st.u.addObl(st, "loop-init", pfx+"/"+clauseName(c), fr.block.Instrs[0].Pos(), t, false)
 		}
@@ -449,7 +457,10 @@ func (st *State) enterBlock() bool {
 		for _, c := range ls.Invariants {
 			env := st.newEnv(fr, nil)
 			env.lentry = preLoop
-			t := env.evalBool(c.E)
+			t, ok := st.invBool(env, c)
+			if !ok {
+				continue
+			}
 			st.assumeAll(env.defs)
 			st.assume(t)
 		}
@@ -489,6 +500,32 @@ func shortKey(k string) string {
 		return k[i+1:]
 	}
 	return k
+}
+
+// invBool evaluates a loop invariant. An UNLABELLED (helper) invariant that names something the code no longer has is
+// dropped for this unit - it is then neither assumed nor checked, which can only make the remaining obligations harder -
+// instead of failing the whole contract; a labelled invariant is a claim and stays a contract mismatch.
+func (st *State) invBool(env *Env, c *Clause) (t Term, ok bool) {
+	if _, dropped := st.u.droppedInv[c]; dropped {
+		return TTrue, false
+	}
+	if c.Label != "" {
+		return env.evalBool(c.E), true
+	}
+	defer func() {
+		if r := recover(); r != nil {
+			if ee, isEE := r.(*EngineError); isEE && strings.HasPrefix(ee.msg, "spec: ") {
+				if st.u.droppedInv == nil {
+					st.u.droppedInv = map[*Clause]string{}
+				}
+				st.u.droppedInv[c] = ee.msg
+				t, ok = TTrue, false
+				return
+			}
+			panic(r)
+		}
+	}()
+	return env.evalBool(c.E), true
 }
 
 func clauseName(c *Clause) string {
